@@ -70,6 +70,12 @@ fn show(chunk: &BytecodeChunk, op: &Op) -> String {
         Op::JumpIfNotNullish { cond, target } => format!("JumpIfNotNullish {} {}", cond, target),
         Op::PushScope => "PushScope".into(),
         Op::PopScope => "PopScope".into(),
+        Op::PushTry {
+            catch_target,
+            finally_target,
+        } => format!("PushTry {} {}", catch_target, finally_target),
+        Op::PopTry => "PopTry".into(),
+        Op::Throw { value } => format!("Throw {}", value),
         Op::Halt => "Halt".into(),
         other => format!("?{:?}", other),
     }
